@@ -35,6 +35,8 @@ BUDGET = {
     "thorough": {"examples": 6000, "wall_s": 1200, "shards": 16},
 }
 
+CASE_TIMEOUT_S = 25
+
 BAD = [
     b"\xff\xfe\x00garbage\n", b"{\n", b"{\"__kind__\": \"enqueue_task\"\n", b"[]\n", b"[1, 2]\n", b"42\n", b"\"str\"\n",
     b"null\n", b"{}\n", b"{\"kind\": \"get_task_states\"}\n", b"{\"__kind__\": \"nope\"}\n", b"{\"__kind__\": 5}\n",
